@@ -206,8 +206,8 @@ def cases_for(tier):
 def run(ctx):
     cases = shuffled(cases_for(ctx.tier), ctx.seed, "c11")
     bound = 1 if ctx.quick else 2
-    free_bound = 2 if ctx.quick else 3
-    cap = 60000 if ctx.quick else 3000000
+    free_bound = 2
+    cap = 60000 if ctx.quick else 1500000
     st = dfs.explore(ctx, MOD, "run_case", cases, bound, cap=cap, chunksize=8, free_bound=free_bound)
     ctx.note("preemption bound %d, free-deviation bound %d: executions=%d capped=%s" % (bound, free_bound, st.executions, st.capped))
     if not ctx.quick and not ctx.violations:
